@@ -513,15 +513,15 @@ func (s *supervisor) finish(a *agg, n int, wall time.Duration) int {
 
 	// evidence
 	cov := map[string]interface{}{
-		"evaluations":         a.evals,
-		"distinct_nontrivial": len(a.keys),
-		"rule":                s.check.Rule(),
-		"samples":             a.samples,
-		"cases_planned":       n,
-		"cases_completed":     a.cases,
-		"monitor_events":      a.events,
-		"inconclusive":        len(a.inconclusive) + int(a.events["inconclusive_not_listed"]),
-		"inconclusive_notes":  a.inconclusive,
+		"evaluations":               a.evals,
+		"distinct_nontrivial":       len(a.keys),
+		"rule":                      s.check.Rule(),
+		"samples":                   a.samples,
+		"cases_planned":             n,
+		"cases_completed":           a.cases,
+		"monitor_events":            a.events,
+		"inconclusive":              len(a.inconclusive) + int(a.events["inconclusive_not_listed"]),
+		"inconclusive_notes":        a.inconclusive,
 		"known_findings_reproduced": knownHits,
 	}
 	if ex, ok := s.check.(Exhaustive); ok && ex.Exhaustive(s.tier) {
